@@ -247,5 +247,388 @@ theorem mseq_sound (n : Nat) : ModelSound s doc vars (mseq s doc vars n) := by
     simp only [mseq] at h
     exact mseqStep_sound s doc vars _ ih obj sels seen q seen' h
 
+
+/-! ### the closure invariant and what a specification run guarantees -/
+
+/-- fragment `F` is COVERED: all nodes reachable from its body have appeared (`A`), all names met in it are visited -/
+def Covered (obj : String) (A : FNode → Prop) (V : List String) (F : String) : Prop :=
+  ∀ fr, doc.fragment? F = some fr → fragmentTypeApplies s obj (some fr.on) = .ok true →
+    (∀ n, Reach s doc vars obj fr.sels n → A n) ∧ (∀ N, NameReach s doc vars obj fr.sels N → N ∈ V)
+
+/-- every visited fragment is covered, except those still being expanded (rank ≥ `r`) -/
+def Closed (obj : String) (rk : String → Nat) (r : Nat) (A : FNode → Prop) (V : List String) : Prop :=
+  ∀ F ∈ V, r ≤ rk F ∨ Covered s doc vars obj A V F
+
+variable {s doc vars}
+theorem Covered.mono {obj : String} {A A' : FNode → Prop} {V V' : List String} {F : String}
+    (h : Covered s doc vars obj A V F) (ha : ∀ n, A n → A' n) (hv : ∀ N ∈ V, N ∈ V') : Covered s doc vars obj A' V' F := by
+  intro fr hf hap
+  obtain ⟨h1, h2⟩ := h fr hf hap
+  exact ⟨fun n hn => ha n (h1 n hn), fun N hN => hv N (h2 N hN)⟩
+variable (s doc vars)
+
+def SpecFacts (rk : String → Nat) (f : String → List Sel → List String → SeqRes) : Prop :=
+  ∀ obj sels V q V' (A : FNode → Prop) (r : Nat), f obj sels V = .ok (q, V') → selsNeed rk sels ≤ r →
+    Closed s doc vars obj rk r A V →
+    (∀ n, Reach s doc vars obj sels n → A n ∨ n ∈ q) ∧ (∀ N, NameReach s doc vars obj sels N → N ∈ V') ∧
+    (∀ G ∈ V', G ∈ V ∨ Covered s doc vars obj (fun n => A n ∨ n ∈ q) V' G) ∧ (∀ G ∈ V, G ∈ V')
+
+/-- facts about the head of a selection list, relative to (`A`, `V`) -/
+def HeadFacts (obj : String) (sel : Sel) (A : FNode → Prop) (V : List String) (q1 : List FNode) (V1 : List String) : Prop :=
+  (∀ n, Reach s doc vars obj [sel] n → A n ∨ n ∈ q1) ∧ (∀ N, NameReach s doc vars obj [sel] N → N ∈ V1) ∧
+  (∀ G ∈ V1, G ∈ V ∨ Covered s doc vars obj (fun n => A n ∨ n ∈ q1) V1 G) ∧ (∀ G ∈ V, G ∈ V1)
+
+private theorem spec_continue (rk : String → Nat) (r : Nat) (rec : String → List Sel → List String → SeqRes) (obj : String)
+    (sel : Sel) (rest : List Sel)
+    (ih : ∀ (V : List String) (q : List FNode) (V' : List String) (A : FNode → Prop),
+      sseqStep s doc vars rec obj rest V = .ok (q, V') → Closed s doc vars obj rk r A V →
+      (∀ n, Reach s doc vars obj rest n → A n ∨ n ∈ q) ∧ (∀ N, NameReach s doc vars obj rest N → N ∈ V') ∧
+      (∀ G ∈ V', G ∈ V ∨ Covered s doc vars obj (fun n => A n ∨ n ∈ q) V' G) ∧ (∀ G ∈ V, G ∈ V'))
+    (A : FNode → Prop) (V : List String) (q1 : List FNode) (V1 : List String) (hcl : Closed s doc vars obj rk r A V)
+    (hh : HeadFacts s doc vars obj sel A V q1 V1) (q2 : List FNode) (V2 : List String)
+    (hr : sseqStep s doc vars rec obj rest V1 = .ok (q2, V2)) :
+    (∀ n, Reach s doc vars obj (sel :: rest) n → A n ∨ n ∈ q1 ++ q2) ∧ (∀ N, NameReach s doc vars obj (sel :: rest) N → N ∈ V2) ∧
+    (∀ G ∈ V2, G ∈ V ∨ Covered s doc vars obj (fun n => A n ∨ n ∈ q1 ++ q2) V2 G) ∧ (∀ G ∈ V, G ∈ V2) := by
+  obtain ⟨hn1, hN1, hc1, hm1⟩ := hh
+  have hcl1 : Closed s doc vars obj rk r (fun n => A n ∨ n ∈ q1) V1 := by
+    intro G hG
+    rcases hc1 G hG with hGV | hcov
+    · rcases hcl G hGV with h | h
+      · exact Or.inl h
+      · exact Or.inr (h.mono (fun n hn => Or.inl hn) hm1)
+    · exact Or.inr hcov
+  obtain ⟨hn2, hN2, hc2, hm2⟩ := ih V1 q2 V2 _ hr hcl1
+  refine ⟨?_, ?_, ?_, fun G hG => hm2 G (hm1 G hG)⟩
+  · intro n hn
+    rcases hn.cons_split with h | h
+    · rcases hn1 n h with h | h
+      · exact Or.inl h
+      · exact Or.inr (by simp [h])
+    · rcases hn2 n h with h | h
+      · rcases h with h | h
+        · exact Or.inl h
+        · exact Or.inr (by simp [h])
+      · exact Or.inr (by simp [h])
+  · intro N hN
+    rcases hN.cons_split with h | h
+    · exact hm2 N (hN1 N h)
+    · exact hN2 N h
+  · intro G hG
+    rcases hc2 G hG with hG1 | hcov
+    · rcases hc1 G hG1 with h | h
+      · exact Or.inl h
+      · refine Or.inr (h.mono ?_ hm2)
+        intro n hn; rcases hn with hn | hn
+        · exact Or.inl hn
+        · exact Or.inr (by simp [hn])
+    · refine Or.inr (hcov.mono ?_ (fun N hN => hN))
+      intro n hn
+      rcases hn with hn | hn
+      · rcases hn with hn | hn
+        · exact Or.inl hn
+        · exact Or.inr (by simp [hn])
+      · exact Or.inr (by simp [hn])
+
+/-- a head that contributes nothing and changes nothing -/
+private theorem head_nothing (obj : String) (sel : Sel) (A : FNode → Prop) (V : List String)
+    (hno : ∀ n, ¬ Reach s doc vars obj [sel] n) (hnoN : ∀ N, NameReach s doc vars obj [sel] N → N ∈ V) :
+    HeadFacts s doc vars obj sel A V [] V :=
+  ⟨fun n hn => absurd hn (hno n), hnoN, fun G hG => Or.inl hG, fun G hG => hG⟩
+
+private theorem sseqStep_facts (rk ek : String → Nat) (B : Nat) (hrk : Ranked doc rk ek B) (r : Nat)
+    (rec : String → List Sel → List String → SeqRes) (hrec : SpecFacts s doc vars rk rec) (obj : String) :
+    ∀ (sels : List Sel), selsNeed rk sels ≤ r → ∀ (V : List String) (q : List FNode) (V' : List String) (A : FNode → Prop),
+      sseqStep s doc vars rec obj sels V = .ok (q, V') → Closed s doc vars obj rk r A V →
+      (∀ n, Reach s doc vars obj sels n → A n ∨ n ∈ q) ∧ (∀ N, NameReach s doc vars obj sels N → N ∈ V') ∧
+      (∀ G ∈ V', G ∈ V ∨ Covered s doc vars obj (fun n => A n ∨ n ∈ q) V' G) ∧ (∀ G ∈ V, G ∈ V') := by
+  intro sels
+  induction sels with
+  | nil =>
+    intro _ V q V' A h _
+    simp [sseqStep] at h
+    obtain ⟨rfl, rfl⟩ := h
+    refine ⟨?_, ?_, fun G hG => Or.inl hG, fun G hG => hG⟩
+    · intro n hn; cases hn <;> simp_all
+    · intro N hN; cases hN <;> simp_all
+  | cons sel rest ih =>
+    intro hneed V q V' A h hcl
+    simp only [selsNeed] at hneed
+    have hrest : selsNeed rk rest ≤ r := by omega
+    have hselN : selNeed rk sel ≤ r := by omega
+    have cont := spec_continue s doc vars rk r rec obj sel rest (ih hrest) A V
+    cases sel with
+    | field key name loc dirs args hs sub =>
+      simp only [sseqStep, bind, Except.bind, pure, Except.pure] at h
+      cases hsk : skipSelection vars dirs with
+      | error e => simp [hsk] at h
+      | ok b =>
+        simp only [hsk] at h
+        cases b with
+        | true =>
+          simp at h
+          have := cont [] V hcl (head_nothing s doc vars obj _ A V
+            (by intro n hn; cases hn with
+                | field hm hs' => simp at hm; obtain ⟨_, _, _, rfl, _, _, _⟩ := hm; simp [hsk] at hs'
+                | inline hm => simp at hm
+                | spread hm => simp at hm)
+            (by intro N hN; cases hN with
+                | here hm => simp at hm
+                | inline hm => simp at hm
+                | spread hm => simp at hm)) q V' h
+          simpa using this
+        | false =>
+          simp only [Bool.false_eq_true, if_false] at h
+          cases hr : sseqStep s doc vars rec obj rest V with
+          | error e => simp [hr] at h
+          | ok p =>
+            simp [hr] at h
+            obtain ⟨rfl, rfl⟩ := h
+            have hh : HeadFacts s doc vars obj (Sel.field key name loc dirs args hs sub) A V [mkNode key name loc args hs sub] V := by
+              refine ⟨?_, ?_, fun G hG => Or.inl hG, fun G hG => hG⟩
+              · intro n hn
+                cases hn with
+                | field hm hs' => simp at hm; obtain ⟨rfl, rfl, rfl, rfl, rfl, rfl, rfl⟩ := hm; exact Or.inr (by simp)
+                | inline hm => simp at hm
+                | spread hm => simp at hm
+              · intro N hN
+                cases hN with
+                | here hm => simp at hm
+                | inline hm => simp at hm
+                | spread hm => simp at hm
+            have := cont _ V hcl hh p.1 p.2 hr
+            simpa using this
+    | inline on dirs sub =>
+      simp only [selNeed] at hselN
+      simp only [sseqStep, bind, Except.bind, pure, Except.pure] at h
+      have nothing : ∀ (hcontra : ∀ n, ¬ Reach s doc vars obj [Sel.inline on dirs sub] n)
+          (hcontraN : ∀ N, ¬ NameReach s doc vars obj [Sel.inline on dirs sub] N),
+          sseqStep s doc vars rec obj rest V = .ok (q, V') → _ := fun hc hcN hh =>
+        cont [] V hcl (head_nothing s doc vars obj _ A V hc (fun N hN => absurd hN (hcN N))) q V' hh
+      cases hsk : skipSelection vars dirs with
+      | error e => simp [hsk] at h
+      | ok b =>
+        simp only [hsk] at h
+        cases b with
+        | true =>
+          simp at h
+          have := nothing
+            (by intro n hn; cases hn with
+                | field hm => simp at hm
+                | inline hm hs' => simp at hm; obtain ⟨_, rfl, _⟩ := hm; simp [hsk] at hs'
+                | spread hm => simp at hm)
+            (by intro N hN; cases hN with
+                | here hm => simp at hm
+                | inline hm hs' => simp at hm; obtain ⟨_, rfl, _⟩ := hm; simp [hsk] at hs'
+                | spread hm => simp at hm) h
+          simpa using this
+        | false =>
+          simp only [Bool.false_eq_true, if_false] at h
+          cases hap : fragmentTypeApplies s obj on with
+          | error e => simp [hap] at h
+          | ok a =>
+            simp only [hap] at h
+            cases a with
+            | false =>
+              simp at h
+              have := nothing
+                (by intro n hn; cases hn with
+                    | field hm => simp at hm
+                    | inline hm hs' ha' => simp at hm; obtain ⟨rfl, _, _⟩ := hm; simp [hap] at ha'
+                    | spread hm => simp at hm)
+                (by intro N hN; cases hN with
+                    | here hm => simp at hm
+                    | inline hm hs' ha' => simp at hm; obtain ⟨rfl, _, _⟩ := hm; simp [hap] at ha'
+                    | spread hm => simp at hm) h
+              simpa using this
+            | true =>
+              simp only [Bool.not_true, Bool.false_eq_true, if_false] at h
+              cases hr1 : rec obj sub V with
+              | error e => simp [hr1] at h
+              | ok p1 =>
+                obtain ⟨q1, V1⟩ := p1
+                simp only [hr1] at h
+                obtain ⟨f1, f2, f3, f4⟩ := hrec obj sub V q1 V1 A r hr1 (by omega) hcl
+                cases hr2 : sseqStep s doc vars rec obj rest V1 with
+                | error e => simp [hr2] at h
+                | ok p2 =>
+                  simp [hr2] at h
+                  obtain ⟨rfl, rfl⟩ := h
+                  have hh : HeadFacts s doc vars obj (Sel.inline on dirs sub) A V q1 V1 := by
+                    refine ⟨?_, ?_, f3, f4⟩
+                    · intro n hn
+                      cases hn with
+                      | field hm => simp at hm
+                      | inline hm hs' ha' hr' => simp at hm; obtain ⟨rfl, rfl, rfl⟩ := hm; exact f1 n hr'
+                      | spread hm => simp at hm
+                    · intro N hN
+                      cases hN with
+                      | here hm => simp at hm
+                      | inline hm hs' ha' hr' => simp at hm; obtain ⟨rfl, rfl, rfl⟩ := hm; exact f2 N hr'
+                      | spread hm => simp at hm
+                  exact cont q1 V1 hcl hh p2.1 p2.2 hr2
+    | spread name dirs =>
+      simp only [selNeed] at hselN
+      simp only [sseqStep, bind, Except.bind, pure, Except.pure] at h
+      cases hsk : skipSelection vars dirs with
+      | error e => simp [hsk] at h
+      | ok b =>
+        simp only [hsk] at h
+        cases b with
+        | true =>
+          simp at h
+          have := cont [] V hcl (head_nothing s doc vars obj _ A V
+            (by intro n hn; cases hn with
+                | field hm => simp at hm
+                | inline hm => simp at hm
+                | spread hm hs' => simp at hm; obtain ⟨_, rfl⟩ := hm; simp [hsk] at hs')
+            (by intro N hN; cases hN with
+                | here hm hs' => simp at hm; obtain ⟨_, rfl⟩ := hm; simp [hsk] at hs'
+                | inline hm => simp at hm
+                | spread hm hs' => simp at hm; obtain ⟨_, rfl⟩ := hm; simp [hsk] at hs')) q V' h
+          simpa using this
+        | false =>
+          simp only [Bool.false_eq_true, if_false] at h
+          by_cases hvis : V.contains name
+          · simp only [hvis, if_true] at h
+            have hmem : name ∈ V := by simpa using hvis
+            have hcov : Covered s doc vars obj A V name := by
+              rcases hcl name hmem with h1 | h1
+              · omega
+              · exact h1
+            have hh : HeadFacts s doc vars obj (Sel.spread name dirs) A V [] V := by
+              refine ⟨?_, ?_, fun G hG => Or.inl hG, fun G hG => hG⟩
+              · intro n hn
+                cases hn with
+                | field hm => simp at hm
+                | inline hm => simp at hm
+                | spread hm hs' hf' ha' hr' =>
+                  simp at hm; obtain ⟨rfl, rfl⟩ := hm
+                  exact Or.inl ((hcov _ hf' ha').1 n hr')
+              · intro N hN
+                cases hN with
+                | here hm hs' => simp at hm; obtain ⟨rfl, rfl⟩ := hm; exact hmem
+                | inline hm => simp at hm
+                | spread hm hs' hf' ha' hr' =>
+                  simp at hm; obtain ⟨rfl, rfl⟩ := hm
+                  exact (hcov _ hf' ha').2 N hr'
+            have := cont [] V hcl hh q V' h
+            simpa using this
+          · simp only [hvis, Bool.false_eq_true, if_false] at h
+            -- the name becomes visited before anything else
+            have hV1 : ∀ G ∈ V, G ∈ V ++ [name] := fun G hG => by simp [hG]
+            cases hfr : doc.fragment? name with
+            | none =>
+              simp only [hfr] at h
+              have hh : HeadFacts s doc vars obj (Sel.spread name dirs) A V [] (V ++ [name]) := by
+                refine ⟨?_, ?_, ?_, hV1⟩
+                · intro n hn
+                  cases hn with
+                  | field hm => simp at hm
+                  | inline hm => simp at hm
+                  | spread hm hs' hf' => simp at hm; obtain ⟨rfl, rfl⟩ := hm; simp [hfr] at hf'
+                · intro N hN
+                  cases hN with
+                  | here hm hs' => simp at hm; obtain ⟨rfl, rfl⟩ := hm; simp
+                  | inline hm => simp at hm
+                  | spread hm hs' hf' => simp at hm; obtain ⟨rfl, rfl⟩ := hm; simp [hfr] at hf'
+                · intro G hG
+                  simp at hG
+                  rcases hG with hG | rfl
+                  · exact Or.inl hG
+                  · exact Or.inr (by intro fr hf; simp [hfr] at hf)
+              have := cont [] _ hcl hh q V' h
+              simpa using this
+            | some fr =>
+              simp only [hfr] at h
+              cases hap : fragmentTypeApplies s obj (some fr.on) with
+              | error e => simp [hap] at h
+              | ok a =>
+                simp only [hap] at h
+                cases a with
+                | false =>
+                  simp at h
+                  have hh : HeadFacts s doc vars obj (Sel.spread name dirs) A V [] (V ++ [name]) := by
+                    refine ⟨?_, ?_, ?_, hV1⟩
+                    · intro n hn
+                      cases hn with
+                      | field hm => simp at hm
+                      | inline hm => simp at hm
+                      | spread hm hs' hf' ha' =>
+                        simp at hm; obtain ⟨rfl, rfl⟩ := hm
+                        rw [hfr] at hf'; cases hf'; simp [hap] at ha'
+                    · intro N hN
+                      cases hN with
+                      | here hm hs' => simp at hm; obtain ⟨rfl, rfl⟩ := hm; simp
+                      | inline hm => simp at hm
+                      | spread hm hs' hf' ha' =>
+                        simp at hm; obtain ⟨rfl, rfl⟩ := hm
+                        rw [hfr] at hf'; cases hf'; simp [hap] at ha'
+                    · intro G hG
+                      simp at hG
+                      rcases hG with hG | rfl
+                      · exact Or.inl hG
+                      · exact Or.inr (by intro fr' hf' ha'; rw [hfr] at hf'; cases hf'; simp [hap] at ha')
+                  have := cont [] _ hcl hh q V' h
+                  simpa using this
+                | true =>
+                  simp only [Bool.not_true, Bool.false_eq_true, if_false] at h
+                  cases hr1 : rec obj fr.sels (V ++ [name]) with
+                  | error e => simp [hr1] at h
+                  | ok p1 =>
+                    obtain ⟨q1, V1⟩ := p1
+                    simp only [hr1] at h
+                    have hrank := hrk.collect name fr hfr
+                    have hcl1 : Closed s doc vars obj rk (rk name) A (V ++ [name]) := by
+                      intro G hG
+                      simp at hG
+                      rcases hG with hG | rfl
+                      · rcases hcl G hG with h1 | h1
+                        · exact Or.inl (by omega)
+                        · exact Or.inr (h1.mono (fun n hn => hn) hV1)
+                      · exact Or.inl (Nat.le_refl _)
+                    obtain ⟨f1, f2, f3, f4⟩ := hrec obj fr.sels (V ++ [name]) q1 V1 A (rk name) hr1 hrank hcl1
+                    cases hr2 : sseqStep s doc vars rec obj rest V1 with
+                    | error e => simp [hr2] at h
+                    | ok p2 =>
+                      simp [hr2] at h
+                      obtain ⟨rfl, rfl⟩ := h
+                      have hh : HeadFacts s doc vars obj (Sel.spread name dirs) A V q1 V1 := by
+                        refine ⟨?_, ?_, ?_, fun G hG => f4 G (hV1 G hG)⟩
+                        · intro n hn
+                          cases hn with
+                          | field hm => simp at hm
+                          | inline hm => simp at hm
+                          | spread hm hs' hf' ha' hr' =>
+                            simp at hm; obtain ⟨rfl, rfl⟩ := hm
+                            rw [hfr] at hf'; cases hf'; exact f1 n hr'
+                        · intro N hN
+                          cases hN with
+                          | here hm hs' => simp at hm; obtain ⟨rfl, rfl⟩ := hm; exact f4 _ (by simp)
+                          | inline hm => simp at hm
+                          | spread hm hs' hf' ha' hr' =>
+                            simp at hm; obtain ⟨rfl, rfl⟩ := hm
+                            rw [hfr] at hf'; cases hf'; exact f2 N hr'
+                        · intro G hG
+                          rcases f3 G hG with h1 | h1
+                          · simp at h1
+                            rcases h1 with h1 | rfl
+                            · exact Or.inl h1
+                            · refine Or.inr ?_
+                              intro fr' hf' ha'
+                              rw [hfr] at hf'; cases hf'
+                              exact ⟨fun n hn => f1 n hn, fun N hN => f2 N hN⟩
+                          · exact Or.inr h1
+                      exact cont q1 V1 hcl hh p2.1 p2.2 hr2
+
+/-- **spec completeness**: what every successful specification run guarantees (nodes appeared, names visited,
+    new visited fragments covered) -/
+theorem sseq_facts (rk ek : String → Nat) (B : Nat) (hrk : Ranked doc rk ek B) (n : Nat) : SpecFacts s doc vars rk (sseq s doc vars n) := by
+  induction n with
+  | zero => intro obj sels V q V' A r h; simp [sseq] at h
+  | succ n ih =>
+    intro obj sels V q V' A r h hneed hcl
+    simp only [sseq] at h
+    exact sseqStep_facts s doc vars rk ek B hrk r _ ih obj sels hneed V q V' A h hcl
+
 end
 end PyGql.Props.C04
